@@ -8,6 +8,7 @@ package mcp
 
 import (
 	"bufio"
+	"bytes"
 	"context"
 	"encoding/json"
 	"fmt"
@@ -319,13 +320,24 @@ func (t *stdioClientTransport) readLoop() {
 		}
 	}()
 
+	// Messages are newline-delimited. They are read line by line rather than with a json.Decoder on
+	// the stream: a decoder's syntax error is sticky, so one malformed line made every later
+	// Decode fail at once and this loop spin for ever.
+	reader := bufio.NewReader(t.stdout)
 	for !t.closed.Load() {
-		var rawMessage json.RawMessage
-		if err := t.decoder.Decode(&rawMessage); err != nil {
-			if err == io.EOF || t.closed.Load() {
+		line, readErr := reader.ReadBytes('\n')
+		if len(bytes.TrimSpace(line)) == 0 {
+			if readErr != nil {
 				break
 			}
+			continue
+		}
+		var rawMessage json.RawMessage
+		if err := json.Unmarshal(line, &rawMessage); err != nil {
 			t.logger.Errorf("Error reading message: %v", err)
+			if readErr != nil {
+				break
+			}
 			continue
 		}
 
